@@ -17,3 +17,11 @@ def derivative [Zero S] [NatCast S] [Mul S] [BEq S] (rn : Bool) (j : Nat) (p : P
   let d := clean false rn { names := p.names, terms := derivTerms j p.terms }
   (alignPair d p).1
 end Np
+
+namespace Np
+variable {S : Type}
+
+/-- several variables differentiate successively (positions refer to the names of the input, which every step keeps) -/
+def derivativeMany [Zero S] [NatCast S] [Mul S] [BEq S] (rn : Bool) (js : List Nat) (p : Poly S) : Poly S :=
+  js.foldl (fun acc j => derivative rn j acc) p
+end Np
